@@ -375,8 +375,8 @@ def streams(ctx: lib.Ctx) -> None:
     bad0, _ = evaluate(ctx, evaluate_items, "corpus")
 
     # 2. random trees: clean patterns x any strings, unclean patterns x any strings
-    n_clean = ctx.n(600, 10000)
-    n_unclean = ctx.n(220, 3000)
+    n_clean = ctx.n(600, 5000)
+    n_unclean = ctx.n(220, 1500)
     n_str = ctx.n(7, 10)
     rnd = []
     seen = set()
